@@ -902,12 +902,13 @@ func (x *ckExec) step(s *ckStep) ckEvent {
 			go func() { wg.Wait(); close(waited) }()
 			select {
 			case <-waited:
-			case <-time.After(ckHangTimeout):
+			case <-time.After(ckHangWait()):
+				ckHangs.Add(1)
 				// concurrent RestoreChunk callers that never return: the restore cannot complete.  The database is abandoned
 				// (its locks are held by the stuck callers); nothing further is observed in this scenario.
 				x.hung = true
 				pmu.Lock()
-				e["panic"] = fmt.Sprintf("hang: concurrent RestoreChunk callers did not return within %v", ckHangTimeout)
+				e["panic"] = "hang: concurrent RestoreChunk callers did not return"
 				pmu.Unlock()
 				hres := make([]string, len(res))
 				for k := range res {
@@ -994,6 +995,17 @@ var ckHangTimeout = func() time.Duration {
 	}
 	return 60 * time.Second
 }()
+
+// ckHangs counts abandoned scenarios; once callers have been seen to hang, later scenarios wait only briefly (a defect that
+// deadlocks concurrent callers would otherwise cost the full bound in every concurrent scenario).
+var ckHangs atomic.Int32
+
+func ckHangWait() time.Duration {
+	if ckHangs.Load() >= 2 && ckHangTimeout > 5*time.Second {
+		return 5 * time.Second
+	}
+	return ckHangTimeout
+}
 
 var ckGatePoints = map[string]bool{"badger.commit.mplog_flushed": true, "path.commit.seqno_committed": true}
 
@@ -1087,6 +1099,11 @@ func ckptCrashChild(args []string) int {
 	for k := j.First; k < j.Step; k++ {
 		e := x.step(&j.Scenario.Steps[k])
 		ef.Write(append(mustJSON(e), '\n'))
+		if x.hung {
+			// concurrent callers never returned: the database's locks are held, nothing further can run on it
+			ef.Write(append(mustJSON(ckEvent{"ev": "_state", "mp": x.mp, "salt": x.salt}), '\n'))
+			os.Exit(6)
+		}
 	}
 	ef.Write(append(mustJSON(ckEvent{"ev": "_state", "mp": x.mp, "salt": x.salt}), '\n'))
 	cs := j.Scenario.Steps[j.Step]
@@ -1122,7 +1139,9 @@ func (x *ckExec) crashSegment(sc *ckScenario, first, k int, self string) ([]ckEv
 	if err := os.WriteFile(jobFile, mustJSON(ckCrashJob{Scenario: *sc, First: first, Step: k, Salt: x.salt, Dir: jdir}), 0o644); err != nil {
 		return nil, err.Error()
 	}
-	cmd := exec.Command(self, "ckpt-crashchild", "-job", jobFile)
+	cctx, cancel := context.WithTimeout(context.Background(), 15*time.Minute) // a child that never ends is an infrastructure failure
+	defer cancel()
+	cmd := exec.CommandContext(cctx, self, "ckpt-crashchild", "-job", jobFile)
 	out, err := cmd.CombinedOutput()
 	code := 0
 	if ee, ok := err.(*exec.ExitError); ok {
@@ -1132,7 +1151,7 @@ func (x *ckExec) crashSegment(sc *ckScenario, first, k int, self string) ([]ckEv
 	}
 	e["child"] = code
 	e["reached"] = code == 3
-	if code != 3 && code != 5 { // 5: the point is not on the operation's path in this state; the operation completed
+	if code != 3 && code != 5 && code != 6 { // 5: the point is not on the operation's path in this state; the operation completed
 		return nil, fmt.Sprintf("child exit %d: %s", code, firstWords(strings.TrimSpace(string(out))))
 	}
 	var evs []ckEvent
@@ -1160,6 +1179,11 @@ func (x *ckExec) crashSegment(sc *ckScenario, first, k int, self string) ([]ckEv
 			continue
 		}
 		evs = append(evs, ckNormalize(ce))
+	}
+	if code == 6 {
+		// the child's concurrent callers hung (recorded in its last event): the scenario ends there
+		x.hung = true
+		return evs, ""
 	}
 	if len(evs) != k-first {
 		return nil, fmt.Sprintf("child recorded %d events for %d steps", len(evs), k-first)
@@ -1290,6 +1314,9 @@ func ckRunScenario(sc *ckScenario, self, scratch string) *ckResult {
 			record(first+i, e)
 		}
 		first = k + 1
+		if x.hung {
+			break
+		}
 	}
 	for k := first; k < len(sc.Steps) && !x.hung; k++ {
 		record(k, x.step(&sc.Steps[k]))
